@@ -36,29 +36,30 @@ def main(tier, seed):
         tops = [c for (c, _) in cfg[1]["order"]]
         for vec in itertools.product(range(0, dmax + 1), repeat=len(tops) + 1):
             delays = dict(zip(["sched"] + tops, vec))
-            cases.append(dict(cfg=cfg, devs=devs, delays=delays, early=None))
+            cases.append(dict(cfg=cfg, devs=devs, delays=delays, early=None, initial=0))
         # an early interrupt of a running top-level device while the scheduler starts late
         for d in [c for (c, k) in cfg[1]["order"] if k == "dev"]:
             for sd in (2, 4, 6):
-                cases.append(dict(cfg=cfg, devs=devs, delays={"sched": sd}, early=(1, d)))
+                for init in (0, 7_000_000_000):
+                    cases.append(dict(cfg=cfg, devs=devs, delays={"sched": sd}, early=(1, d), initial=init))
     for _ in range({"quick": 40, "thorough": 800}[tier]):
         cfg = slevel.gen_config(rng, depth=rng.choice([0, 1, 2]))
         devs = slevel.gen_devs(rng, cfg)
         tops = [c for (c, _) in cfg[1]["order"]]
         delays = {k: rng.randint(0, 9) for k in ["sched"] + tops}
-        cases.append(dict(cfg=cfg, devs=devs, delays=delays, early=None))
+        cases.append(dict(cfg=cfg, devs=devs, delays=delays, early=None, initial=rng.choice([0, 2_000_000, 5_000_000_000])))
     runs, terms = [], []
     t_end = 1_000_000_003
     for c in cases:
-        r = slevel.run_internal(c["cfg"], c["devs"], (1, 1), 0, [], t_end, delays=c["delays"], early=c["early"])
+        r = slevel.run_internal(c["cfg"], c["devs"], (1, 1), c["initial"], [], t_end, delays=c["delays"], early=c["early"])
         c["stim"] = []
         runs.append(r)
-        terms.append(slevel.render_sim_case(c["cfg"], c["devs"], (1, 1), 0, [], t_end, r,
+        terms.append(slevel.render_sim_case(c["cfg"], c["devs"], (1, 1), c["initial"], [], t_end, r,
                                             pre=[c["early"][1]] if c["early"] else []))
     bad = run_shards(PID, sprops.HEADER, "sim_case", "check_sim_all", terms, shard_size=25)
     for i, (c, r) in enumerate(zip(cases, runs)):
         late = [k for k, v in c["delays"].items() if v > 0]
-        ck.count(json.dumps([sprops.describe(dict(c, speed=(1, 1), initial=0)), {str(k): v for k, v in c["delays"].items()}, c["early"]]),
+        ck.count(json.dumps([sprops.describe(dict(c, speed=(1, 1))), {str(k): v for k, v in c["delays"].items()}, c["early"]]),
                  len(late) >= 1)
         if r["error"] or r["errors"]:
             bad.setdefault(i, []).append(99)
@@ -89,7 +90,7 @@ def main(tier, seed):
         reason = ("participant-crashed-or-stalled-at-start-up" if 99 in codes else
                   "initial-tick-incomplete-after-late-start" if (61 in codes or 62 in codes) else
                   "run-differs-from-all-started-together")
-        d = sprops.describe(dict(c, speed=(1, 1), initial=0))
+        d = sprops.describe(dict(c, speed=(1, 1)))
         d.update(delays={str(k): v for k, v in c["delays"].items()}, early=c["early"], codes=codes, error=r["error"], errors=r["errors"][:3],
                  observed={str(k): [t for t, _ in v] for k, v in r["per"].items()})
         ck.report(reason + ("-early-interrupt" if c["early"] else "") + ("-nested" if sig[2] else ""),
@@ -103,8 +104,9 @@ def replay(rp):
     devs = {int(k): tuple(v) for k, v in rp["devs"].items()}
     delays = {(k if k == "sched" else int(k)): v for k, v in rp["delays"].items()}
     early = tuple(rp["early"]) if rp["early"] else None
-    r = slevel.run_internal(cfg, devs, (1, 1), 0, [], 1_000_000_003, delays=delays, early=early)
-    term = slevel.render_sim_case(cfg, devs, (1, 1), 0, [], 1_000_000_003, r, pre=[early[1]] if early else [])
+    init = rp.get("initial", 0)
+    r = slevel.run_internal(cfg, devs, (1, 1), init, [], 1_000_000_003, delays=delays, early=early)
+    term = slevel.render_sim_case(cfg, devs, (1, 1), init, [], 1_000_000_003, r, pre=[early[1]] if early else [])
     bad = run_shards("replay", sprops.HEADER, "sim_case", "check_sim_all", [term])
     print("delays:", delays, "early:", early)
     print("observed:", {k: [t for t, _ in v] for k, v in r["per"].items()}, r["error"], r["errors"][:2])
